@@ -434,6 +434,19 @@ def extract_fn(unit: str, file: str, item: str, mode: str, contracts, canary: bo
             params.add(tx.text)
     rename: Dict[int, str] = {}
     counters: Dict[str, int] = {}
+    shadow_scopes: List[Tuple[str, int, int, str]] = []   # (name, from byte, to byte, new name) of R21 renames
+
+    def resolve_names(text: str, pos: int) -> str:
+        """`${x}` in an inserted proof block stands for the variable `x` as it resolves at the point of insertion (a `let` that
+        shadows a parameter is renamed by R21; if the changed code no longer has that `let`, `${x}` is the parameter itself)"""
+        def _r(mo):
+            nm = mo.group(1)
+            best = None
+            for (n0, a0, z0, new0) in shadow_scopes:
+                if n0 == nm and a0 <= pos < z0 and (best is None or a0 > best[0]):
+                    best = (a0, new0)
+            return best[1] if best else nm
+        return re.sub(r'\$\{(\w+)\}', _r, text)
     k = blo + 1
     while k < bhi:
         if toks[k].kind == 'ident' and toks[k].text == 'let':
@@ -469,6 +482,7 @@ def extract_fn(unit: str, file: str, item: str, mode: str, contracts, canary: bo
                 counters[name] = counters.get(name, 0) + 1
                 new_name = 'vp_%s%d' % (name, counters[name])
                 rename[q] = new_name
+                shadow_scopes.append((name, toks[e].start, toks[z].start, new_name))
                 # closures that re-bind the name as a parameter shadow it themselves: leave them alone
                 skip = []
                 for cl0 in find_closures(toks, e, z):
@@ -643,7 +657,7 @@ def extract_fn(unit: str, file: str, item: str, mode: str, contracts, canary: bo
                         d_ += 1
                     elif tw.kind == 'punct' and tw.text in (')', ']', '>'):
                         d_ -= 1
-                    elif tw.kind == 'ident' and d_ == 0 and tw.text not in ('mut', 'ref') and toks[w - 1].text in ('|', ',', 'mut', '&') and toks[w + 1].text in (',', ':', '|'):
+                    elif (tw.kind == 'ident' or tw.text == '_') and d_ == 0 and tw.text not in ('mut', 'ref') and toks[w - 1].text in ('|', ',', 'mut', '&') and toks[w + 1].text in (',', ':', '|'):
                         out_.append(tw.text)
                 return out_
             want = None
@@ -664,7 +678,22 @@ def extract_fn(unit: str, file: str, item: str, mode: str, contracts, canary: bo
                     edits.append((toks[cl.bar_tok].start, toks[cl.bar_tok].end, '|%s|' % cs.params, rw('A4')))
                 else:
                     edits.append((toks[cl.bar_tok].end, toks[cl.params_end_tok].start, cs.params, rw('A4')))
-            spec_segs = [Seg(' -> %s\n' % cs.ret if cs.ret else '\n', rw('A4'))] + _render_block(cs.block, '                ', fn_label)
+            # `$1`, `$2`, ... in a closure clause stand for the closure's own parameter names as written in the source (so that a
+            # clause about "the context the closure is GIVEN" cannot be captured by an outer variable of the same name)
+            pnames = _names(cl) if cs.params is None else [m_.group(1) for m_ in re.finditer(r'(?:^|,)\s*(?:mut\s+)?(\w+)\s*:', cs.params)]
+            pnames = [('vp_unused?' if x == '_' else x) for x in pnames]
+            blk_c = cs.block
+            if any('$' in c0.expr for c0 in cs.block.clauses):
+                import copy
+                blk_c = ClauseBlock([copy.copy(c0) for c0 in cs.block.clauses])
+                for c0 in blk_c.clauses:
+                    def _sub(mo):
+                        i_ = int(mo.group(1)) - 1
+                        if i_ >= len(pnames) or pnames[i_].endswith('?'):
+                            raise LostAnchor('%s: closure %d has no named parameter $%s' % (fn_label, k, mo.group(1)))
+                        return pnames[i_]
+                    c0.expr = re.sub(r'\$(\d)', _sub, c0.expr)
+            spec_segs = [Seg(' -> %s\n' % cs.ret if cs.ret else '\n', rw('A4'))] + _render_block(blk_c, '                ', fn_label)
             info.clauses += cs.block.clauses
             ins_at = toks[cl.params_end_tok].end
             prf = (' proof { %s } ' % cs.proof) if cs.proof and (fn_label, '%s:%d' % (c.vc_file, cs.vc_line)) not in _drop_inserts() else ''
@@ -714,7 +743,7 @@ def extract_fn(unit: str, file: str, item: str, mode: str, contracts, canary: bo
                 needle, nth = ins.arg
                 for (p, pe) in _find_nth(raw_body, needle, nth, fn_label):
                     a = body_open.start + (pe if ins.where == 'after' else p)
-                    edits.append((a, a, txt, org))
+                    edits.append((a, a, resolve_names(txt, a), org))
         for rp in c.replaces:
           with _Txn():
             whole = sf.text[it.start:it.end]
